@@ -1,2 +1,233 @@
-(* Proofs/FastqProofs.v *)
+(* Proofs/FastqProofs.v — facts about the Scanner contract of Base.v
+   (split_on, lines_tail, drop_cr, scan_tokens) and about the FASTQ writer. *)
 From Bio Require Import Base.
+From Bio.Model Require Import Fastq.
+From Bio.Spec Require Import FastqSpec.
+
+(* ------------------------------------------------------------------ *)
+(* split_on                                                             *)
+
+Lemma split_on_nonempty : forall sep s, split_on sep s <> [].
+Proof.
+  intros sep s. destruct s as [|c r]; cbn [split_on].
+  - discriminate.
+  - destruct (c =? sep). discriminate.
+    destruct (split_on sep r); discriminate.
+Qed.
+
+Lemma split_on_line : forall l rest, no_lf l ->
+  split_on LF (l ++ LF :: rest) = l :: split_on LF rest.
+Proof.
+  induction l as [|c l IH]; intros rest H.
+  - cbn [app split_on]. rewrite N.eqb_refl. reflexivity.
+  - cbn [app split_on].
+    assert (Hc : c =? LF = false).
+    { apply N.eqb_neq. intro E. apply H. left. exact E. }
+    rewrite Hc. rewrite IH. reflexivity.
+    intro Hin. apply H. right. exact Hin.
+Qed.
+
+Lemma split_on_last : forall l, no_lf l -> split_on LF l = [l].
+Proof.
+  induction l as [|c l IH]; intros H.
+  - reflexivity.
+  - cbn [split_on].
+    assert (Hc : c =? LF = false).
+    { apply N.eqb_neq. intro E. apply H. left. exact E. }
+    rewrite Hc. rewrite IH. reflexivity.
+    intro Hin. apply H. right. exact Hin.
+Qed.
+
+Lemma lines_tail_cons : forall a ps, ps <> [] -> lines_tail (a :: ps) = a :: lines_tail ps.
+Proof. intros a ps H. destruct ps as [|b r]. contradiction. reflexivity. Qed.
+
+(* ------------------------------------------------------------------ *)
+(* scan_tokens                                                          *)
+
+Lemma scan_tokens_nil : scan_tokens [] = [].
+Proof. reflexivity. Qed.
+
+(* a complete line is one token, whatever follows *)
+Lemma scan_tokens_line : forall l rest, no_lf l ->
+  scan_tokens (l ++ LF :: rest) = drop_cr l :: scan_tokens rest.
+Proof.
+  intros l rest H. unfold scan_tokens. rewrite split_on_line by exact H.
+  rewrite lines_tail_cons by apply split_on_nonempty. reflexivity.
+Qed.
+
+(* a final unterminated non-empty line is a token *)
+Lemma scan_tokens_last : forall l, no_lf l -> l <> [] -> scan_tokens l = [drop_cr l].
+Proof.
+  intros l H Hne. unfold scan_tokens. rewrite split_on_last by exact H.
+  destruct l. contradiction. reflexivity.
+Qed.
+
+Lemma scan_tokens_lf : forall rest, scan_tokens (LF :: rest) = [] :: scan_tokens rest.
+Proof. intros rest. apply (scan_tokens_line [] rest). intros []. Qed.
+
+(* ------------------------------------------------------------------ *)
+(* drop_cr                                                              *)
+
+Lemma drop_cr_no_cr : forall l, ~ In CR l -> drop_cr l = l.
+Proof.
+  induction l as [|c l IH]; intros H. reflexivity.
+  destruct l as [|d l].
+  - cbn [drop_cr].
+    assert (Hc : c =? 13 = false).
+    { apply N.eqb_neq. intro E. apply H. left. exact E. }
+    rewrite Hc. reflexivity.
+  - change (drop_cr (c :: d :: l)) with (c :: drop_cr (d :: l)).
+    rewrite IH. reflexivity. intro Hin. apply H. right. exact Hin.
+Qed.
+
+(* the first byte of what drop_cr leaves is the first byte of the line *)
+Lemma drop_cr_head : forall l b r, drop_cr l = b :: r -> exists r', l = b :: r'.
+Proof.
+  intros l b r H. destruct l as [|c l]. discriminate.
+  destruct l as [|d l].
+  - cbn [drop_cr] in H. destruct (c =? 13). discriminate.
+    injection H as E _. subst. exists []. reflexivity.
+  - change (drop_cr (c :: d :: l)) with (c :: drop_cr (d :: l)) in H.
+    injection H as E _. subst. exists (d :: l). reflexivity.
+Qed.
+
+(* ------------------------------------------------------------------ *)
+(* fields                                                               *)
+
+Lemma memb_lfcr_false : forall b, memb b [LF; CR] = false -> b <> LF /\ b <> CR.
+Proof.
+  intros b H. unfold memb in H. cbn [existsb] in H.
+  apply orb_false_elim in H. destruct H as [H1 H2].
+  apply orb_false_elim in H2. destruct H2 as [H2 _].
+  apply N.eqb_neq in H1. apply N.eqb_neq in H2. split; assumption.
+Qed.
+
+Lemma field_ok_no_lf : forall s, field_ok s -> no_lf s.
+Proof.
+  intros s H Hin. unfold field_ok, clean in H. rewrite Forall_forall in H.
+  apply H in Hin. apply memb_lfcr_false in Hin. destruct Hin as [A _]. apply A. reflexivity.
+Qed.
+
+Lemma field_ok_no_cr : forall s, field_ok s -> ~ In CR s.
+Proof.
+  intros s H Hin. unfold field_ok, clean in H. rewrite Forall_forall in H.
+  apply H in Hin. apply memb_lfcr_false in Hin. destruct Hin as [_ A]. apply A. reflexivity.
+Qed.
+
+Lemma field_ok_drop_cr : forall s, field_ok s -> drop_cr s = s.
+Proof. intros s H. apply drop_cr_no_cr. apply field_ok_no_cr. exact H. Qed.
+
+Lemma field_okb_spec : forall s, field_okb s = true <-> field_ok s.
+Proof.
+  intros s. unfold field_okb, cleanb, field_ok, clean.
+  rewrite forallb_forall, Forall_forall. split; intros H x Hx.
+  - apply H in Hx. apply negb_true_iff in Hx. exact Hx.
+  - apply H in Hx. apply negb_true_iff. exact Hx.
+Qed.
+
+Lemma fq_okb_spec : forall r, fq_okb r = true <-> fq_ok r.
+Proof.
+  intros r. unfold fq_okb, fq_ok.
+  rewrite !andb_true_iff, !field_okb_spec, Nat.eqb_eq. tauto.
+Qed.
+
+Lemma no_lf_cons : forall b l, b <> LF -> no_lf l -> no_lf (b :: l).
+Proof. intros b l Hb Hl [E|Hin]. apply Hb. exact E. apply Hl. exact Hin. Qed.
+
+(* ------------------------------------------------------------------ *)
+(* the writer                                                           *)
+
+Lemma write_unlines : forall r, write r = unlines (record_lines r).
+Proof.
+  intros r. unfold write, unlines, record_lines. cbn [map concat].
+  repeat (rewrite <- ?app_assoc; cbn [app]). reflexivity.
+Qed.
+
+Lemma write_app : forall r rest,
+  write r ++ rest
+  = (AT :: name r) ++ LF :: (seq r ++ LF :: ([PLUS] ++ LF :: (quals r ++ LF :: rest))).
+Proof.
+  intros r rest. unfold write.
+  repeat (rewrite <- ?app_assoc; cbn [app]). reflexivity.
+Qed.
+
+Lemma write_length : forall r,
+  length (write r) = (6 + length (name r) + length (seq r) + length (quals r))%nat.
+Proof.
+  intros r. unfold write. cbn [length]. rewrite app_length. cbn [length].
+  rewrite app_length. cbn [length]. rewrite app_length. cbn [length]. lia.
+Qed.
+
+(* MarshalText never panics and returns what Write writes: for every record. *)
+Lemma marshal_total : forall r, marshal_text r = Ok (write r).
+Proof.
+  intros r. unfold marshal_text, write_calls. cbn [concat]. rewrite app_nil_r.
+  rewrite write_length. rewrite Nat.eqb_refl. reflexivity.
+Qed.
+
+Lemma write_calls_single : forall r, write_calls r = [write r] /\ concat (write_calls r) = write r.
+Proof. intros r. split. reflexivity. unfold write_calls. cbn [concat]. apply app_nil_r. Qed.
+
+Lemma count_lf_app : forall a b, count_lf (a ++ b) = (count_lf a + count_lf b)%nat.
+Proof. intros a b. unfold count_lf. apply count_occ_app. Qed.
+
+Lemma count_lf_no_lf : forall l, no_lf l -> count_lf l = 0%nat.
+Proof. intros l H. unfold count_lf. apply count_occ_not_In. exact H. Qed.
+
+Lemma count_lf_line : forall l rest, no_lf l -> count_lf (l ++ LF :: rest) = S (count_lf rest).
+Proof.
+  intros l rest H. rewrite count_lf_app, (count_lf_no_lf l H).
+  unfold count_lf. cbn [count_occ]. destruct (N.eq_dec LF LF) as [_|N]. reflexivity.
+  exfalso. apply N. reflexivity.
+Qed.
+
+Lemma at_no_lf : forall s, no_lf s -> no_lf (AT :: s).
+Proof. intros s H. apply no_lf_cons. discriminate. exact H. Qed.
+
+Lemma plus_no_lf : no_lf [PLUS].
+Proof. intros [E|[]]. discriminate E. Qed.
+
+(* Each record is written as exactly four lines '@name', sequence, '+',
+   qualities: four LFs, and splitting at LF gives back the four lines. *)
+Lemma four_lines : forall r,
+  no_lf (name r) -> no_lf (seq r) -> no_lf (quals r) ->
+  write r = unlines [AT :: name r; seq r; [PLUS]; quals r]
+  /\ count_lf (write r) = 4%nat
+  /\ split_on LF (write r) = [AT :: name r; seq r; [PLUS]; quals r; []].
+Proof.
+  intros r Hn Hs Hq. split. apply write_unlines.
+  rewrite <- (app_nil_r (write r)). rewrite write_app. split.
+  - rewrite count_lf_line by (apply at_no_lf; exact Hn).
+    rewrite count_lf_line by exact Hs.
+    rewrite count_lf_line by exact plus_no_lf.
+    rewrite count_lf_line by exact Hq. reflexivity.
+  - rewrite split_on_line by (apply at_no_lf; exact Hn).
+    rewrite split_on_line by exact Hs.
+    rewrite split_on_line by exact plus_no_lf.
+    rewrite split_on_line by exact Hq. reflexivity.
+Qed.
+
+Lemma four_lines_ok : forall r, fq_ok r ->
+  write r = unlines [AT :: name r; seq r; [PLUS]; quals r]
+  /\ count_lf (write r) = 4%nat
+  /\ split_on LF (write r) = [AT :: name r; seq r; [PLUS]; quals r; []].
+Proof.
+  intros r (Hn & Hs & Hq & _). apply four_lines; apply field_ok_no_lf; assumption.
+Qed.
+
+(* the tokens of a written record followed by anything *)
+Lemma scan_tokens_write : forall r rest, fq_ok r ->
+  scan_tokens (write r ++ rest)
+  = (AT :: name r) :: seq r :: [PLUS] :: quals r :: scan_tokens rest.
+Proof.
+  intros r rest (Hn & Hs & Hq & _). rewrite write_app.
+  rewrite scan_tokens_line by (apply at_no_lf, field_ok_no_lf; exact Hn).
+  rewrite scan_tokens_line by (apply field_ok_no_lf; exact Hs).
+  rewrite scan_tokens_line by exact plus_no_lf.
+  rewrite scan_tokens_line by (apply field_ok_no_lf; exact Hq).
+  rewrite (field_ok_drop_cr _ Hs), (field_ok_drop_cr _ Hq).
+  replace (drop_cr (AT :: name r)) with (AT :: name r).
+  reflexivity.
+  symmetry. apply drop_cr_no_cr. intros [E|Hin]. discriminate E.
+  apply (field_ok_no_cr _ Hn). exact Hin.
+Qed.
